@@ -15,6 +15,10 @@ runpat=$(grep -o '^func Test[A-Za-z0-9_]*' $dst/demo_test.go | sed 's/func //' |
 [ -z "$runpat" ] && runpat='Demo|demo|Seed|C[0-9][0-9]'
 git -C /repo worktree remove --force $ev 2>/dev/null
 git -C /repo worktree add -q $ev HEAD || exit 2
+if [ -n "${SKIP_DEMO:-}" ]; then  # regression of the stored collection: the demonstration was confirmed when the seed was stored
+  ( cd $ev && git apply $dst/patch.diff ) || { echo "patch does not apply"; git -C /repo worktree remove --force $ev; exit 2; }
+  ( cd $ev && go build ./... ) || { echo "does not build"; git -C /repo worktree remove --force $ev; exit 2; }
+else
 cp $dst/demo_test.go $ev/$dir/zz_demo_test.go
 ( cd $ev && go test -vet=off -count=1 -run "^($runpat)\$" ./$dir/ > /tmp/ev-$sid.clean.log 2>&1 ); clean=$?
 ( cd $ev && git apply $dst/patch.diff ) || { echo "patch does not apply"; git -C /repo worktree remove --force $ev; exit 2; }
@@ -22,6 +26,7 @@ cp $dst/demo_test.go $ev/$dir/zz_demo_test.go
 rm $ev/$dir/zz_demo_test.go
 ( cd $ev && go build ./... && go test -vet=off -count=1 ./... > /tmp/ev-$sid.suite.log 2>&1 ); suite=$?
 echo "demo on clean tree: exit $clean (want 0); demo with change: exit $mut (want !=0); suite with change: exit $suite (want 0)"
+fi
 out=/verif/.work/seedruns/$sid; rm -rf $out; mkdir -p $out
 cd /verif && VERIF_REPO=$ev VERIF_OUTDIR=$out VERIF_TIMEOUT=${VERIF_TIMEOUT:-900} ./verif check $prop --tier $tier > /tmp/ev-$sid.check.log 2>&1; rc=$?
 git -C /repo worktree remove --force $ev
